@@ -19,15 +19,15 @@ GIdPoolDef == {NoId, 0}
 IdPoolNone == {NoId}
 DefValsGraph == {0, 5, 10}
 StepPoolG == {"s", "d", "zz"}
-SliceOps(n) == CASE n = "C09" -> {"Generate", "Regenerate", "AddNode", "Link", "RemoveNode", "AttachAttackers", "RemoveGAttacker", "Undo", "Prune", "Analyse"}
-              [] n = "C11" -> {"Generate", "AttachAttackers", "AddGAttacker", "RemoveGAttacker", "Compromise", "Undo", "RemoveNode"}
+SliceOps(n) == CASE n = "C09" -> {"Generate", "Sibling", "Regenerate", "AddNode", "Link", "RemoveNode", "AttachAttackers", "RemoveGAttacker", "Undo", "Prune", "Analyse"}
+              [] n = "C11" -> {"Generate", "Sibling", "AttachAttackers", "AddGAttacker", "RemoveGAttacker", "Compromise", "Undo", "RemoveNode"}
               [] n = "C13" -> {"Generate", "AddNode", "Link", "Analyse", "Prune", "AttachAttackers", "Touch"}
-              [] n = "C14" -> {"Generate", "AttachAttackers", "Analyse", "DeepCopy", "RemoveNode", "Compromise", "Touch", "AddNode", "RemoveGAttacker"}
-              [] n = "C10" -> {"Generate", "AttachAttackers", "Analyse", "Prune", "Compromise", "Undo", "RemoveNode", "Touch", "SaveLoad"}
+              [] n = "C14" -> {"Generate", "Sibling", "AttachAttackers", "Analyse", "DeepCopy", "RemoveNode", "Compromise", "Touch", "AddNode", "RemoveGAttacker"}
+              [] n = "C10" -> {"Generate", "Sibling", "AttachAttackers", "Analyse", "Prune", "Compromise", "Undo", "RemoveNode", "Touch", "SaveLoad"}
               [] n = "C10R" -> {"Generate", "AttachAttackers", "Undo", "RemoveNode", "SaveLoad"}    \* removals before saving
               [] n = "C13L" -> {"Generate", "AttachAttackers", "Undo", "Touch", "SaveLoad", "Prune"}   \* prune loaded graphs / after undo
               [] n = "C10F" -> {"Generate", "AddGAttacker", "Compromise", "SaveLoad"}
-              [] n = "ALL" -> {"Generate", "Regenerate", "AddNode", "Link", "RemoveNode", "Prune", "Analyse", "AttachAttackers", "AddGAttacker", "RemoveGAttacker", "Compromise", "Undo", "DeepCopy", "SaveLoad", "Touch"}
+              [] n = "ALL" -> {"Generate", "Sibling", "Regenerate", "AddNode", "Link", "RemoveNode", "Prune", "Analyse", "AttachAttackers", "AddGAttacker", "RemoveGAttacker", "Compromise", "Undo", "DeepCopy", "SaveLoad", "Touch"}
               [] OTHER -> {"Generate"}
 TouchKindsDef == IF EnvOr("VERIF_TOUCH", "all") = "label" THEN {"label"} ELSE {"tags", "extras", "ttc", "label"}
 GOpsDef == SliceOps(EnvOr("VERIF_SLICE", "C09"))
